@@ -355,6 +355,8 @@ def run_case(i, rng, rec, tier, state):
         sname = setters[int(rng.integers(len(setters)))]
         mode = "move" if sname in ("centroid", "center") else ("bad" if rng.random() < 0.15 else "ratio")
         val = str(rng.choice(["array", "list", "own-vertex-view"])) if mode == "move" else (float(rng.choice(BAD)) if mode == "bad" else float(np.exp(rng.uniform(-2, 2))))
+        if mode == "bad" and math.isinf(val) and (not hasattr(getattr(cs, cname), "vertices") or sname == "radius"):
+            val = -1.0      # +inf is a stated bad target only where it would leave non-finite vertices (see plan())
         chain.append((sname, mode, val))
         _apply(rec, state, s, cname, blabel, sname, mode, val, rng)
     rec.cls("chain:" + cname)
